@@ -81,6 +81,8 @@ class Explorer:
         self.pipe_registry = []
         self.first_choice_seed = {}
         self.first_choice = {}
+        self.modular_memo_seed = {}
+        self.modular_memo = {}
         self.branch_rlimit = 4000000
         self.base_pc = []
         self.prefix = ''
@@ -106,6 +108,7 @@ class Explorer:
         self.floor_cache = dict(self.floor_cache_seed)
         self.pipe_registry = list(self.pipe_registry_seed)
         self.first_choice = dict(self.first_choice_seed)
+        self.modular_memo = dict(self.modular_memo_seed)
         self.notes = []
 
     def fresh_name(self, base):
